@@ -4,7 +4,7 @@ import ply.lex as lex
 from . import lexer
 from ..helper.number import to_number
 from .._compat import number_types, string_types
-from ..formulas import error, operators
+from ..formulas import error, operators, utils
 import math
 
 
@@ -122,7 +122,7 @@ class FormulaParser(Parser):
         elif p[2] == '.':
             p[0] = to_number(p[1] + '.' + p[3])
         elif p[2] == '^':
-            p[0] = to_number(p[1])**to_number(p[3])
+            p[0] = utils.power(to_number(p[1]), to_number(p[3]))
         elif p[2] == '%':
             p[0] = to_number(p[1]) / 100  # correctly rounded, unlike n * 0.01
 
